@@ -64,6 +64,8 @@ type Goroutine struct {
 	ready  func() bool
 	isMain bool
 	result Value
+	justYielded bool
+	yielded     bool
 }
 
 type Violation struct {
@@ -160,6 +162,7 @@ type Interp struct {
 	concPos    int
 	concChoice int
 	usedStubs  bool
+	preemptLocks bool
 	preinitNotes []string
 	model      map[string]uint64 // a model of in.pc, or nil
 	modelMemo  map[int]uint64
